@@ -35,6 +35,7 @@ class RefUnpickler(pickle._Unpickler):
     def __init__(self, f, strict):
         super().__init__(f, encoding="utf-8", errors="surrogateescape")
         self.strict = strict
+        self.all_dicts = []          # every dict object created, also those the result does not reach
 
     # -- classes and persistent ids stay symbolic, except the two documented translations
     def find_class(self, module, name):
@@ -103,7 +104,9 @@ class RefUnpickler(pickle._Unpickler):
 
     # dicts: keep the assignment trace
     def load_empty_dictionary(self):
-        self.append(TraceDict())
+        d = TraceDict()
+        self.all_dicts.append(d)
+        self.append(d)
     dispatch[pickle.EMPTY_DICT[0]] = load_empty_dictionary
 
     def load_dict(self):
@@ -111,6 +114,7 @@ class RefUnpickler(pickle._Unpickler):
         if len(items) % 2:
             raise ValueError("odd number of items for DICT")
         d = TraceDict()
+        self.all_dicts.append(d)
         for i in range(0, len(items), 2):
             d.assign(items[i], items[i + 1])
         self.append(d)
@@ -159,11 +163,16 @@ class RefUnpickler(pickle._Unpickler):
         self.append(self.find_class(module, name))
     dispatch[pickle.STACK_GLOBAL[0]] = load_stack_global
 
+LAST_DICTS = []
 def pyload(data, strict):
-    """(ok, object or exception)"""
+    """(ok, object or exception); LAST_DICTS = every dict the load created"""
+    global LAST_DICTS
+    LAST_DICTS = []
     try:
         u = RefUnpickler(io.BytesIO(data), strict)
-        return True, u.load()
+        obj = u.load()
+        LAST_DICTS = u.all_dicts
+        return True, obj
     except RecursionError:
         raise
     except BaseException as e:
@@ -242,10 +251,21 @@ def go_key_id(k):
     if isinstance(k, User): return ("U", k.tag)
     raise GoMapKeyError(type(k).__name__)
 
+def strkind(k):
+    if isinstance(k, Py2Str): return "z"
+    if isinstance(k, str): return "s"
+    if isinstance(k, (bytes, bytearray)): return "b"
+    if isinstance(k, tuple): return tuple(strkind(x) for x in k)
+    return None
+
 def ref_entries(d, pydict):
     """entries of the dict the reference machine built, as the decoder mode documents them;
     returns (entries, multi) - multi: some assignment matched more than one stored key"""
     entries, multi = [], False
+    kinds = []          # per entry: the string kinds of all keys that ever fell into this class
+    def flat(k):
+        sk = strkind(k)
+        return set(sk) if isinstance(sk, tuple) else {sk}
     if pydict:
         for k, v in d.trace:
             try:
@@ -257,10 +277,17 @@ def ref_entries(d, pydict):
                 multi = True
             if hits:
                 entries[hits[0]] = (entries[hits[0]][0], v)
+                kinds[hits[0]] |= flat(k)
                 for i in reversed(hits[1:]):
-                    del entries[i]
+                    kinds[hits[0]] |= kinds[i]
+                    del entries[i]; del kinds[i]
+                # a Python-2 str equals both the str and the bytes of the same content, which are not
+                # equal to each other: a class holding a str AND a bytes key is not a class of any single
+                # Python's dict (same corner as C08's non-transitive finding)
+                if {"s", "b"} <= kinds[hits[0]]:
+                    multi = True
             else:
-                entries.append((k, v))
+                entries.append((k, v)); kinds.append(flat(k))
     else:
         ids = []
         for k, v in d.trace:
@@ -340,6 +367,15 @@ def to_py_key(g):
     if isinstance(g, Pairs): raise TypeError("dict key")
     if isinstance(g, tuple): return tuple(to_py_key(x) for x in g)
     return g
+
+def any_dict_with_unhashable(dicts, pydict):
+    """did the load assign, to ANY dict (also one the result does not reach), a key the mode cannot hold?"""
+    for d in dicts:
+        try:
+            ref_entries(d, pydict)
+        except GoMapKeyError:
+            return True
+    return False
 
 def contains_dict_with_unhashable(p, pydict, path=None):
     """does building this object require a dict key the mode cannot hold? (documented error)"""
